@@ -66,6 +66,10 @@ def cache_workloads():
     W.append(('cull', three, [('cull',)]))
     W.append(('block-two-writes', [S('a', 1)],
               [('block', (S('a', BIG), S('b', BIGB)), False)]))
+    W.append(('block-replace-file', [S('a', ('$T', 13)), S('b', BIGB)],
+              [('block', (S('a', BIG), ('delete', 'b')), False)]))
+    W.append(('block-pop-file', [S('a', BIG), S('b', 1)],
+              [('block', (('pop', 'a', 0), S('b', BIGB)), False)]))
     W.append(('block-inline', [S('a', 1)],
               [('block', (S('a', 2), ('incr', 'n', 1, 0)), False)]))
     return W
@@ -361,6 +365,41 @@ def seq_case(name, kind, maxlen, items, program):
     def view(x):
         return list(x) if kind == 'deque' else list(x.items())
 
+    def deep_view(x, is_ref):
+        """Everything a user can see of the recovered object, including how
+        it behaves when it is used again (the ends, the length and later
+        insertions rely on key ranges that plain iteration does not)."""
+        if kind == 'deque':
+            n = len(x)
+            if is_ref:
+                ends = (x[0], x[-1]) if n else None
+            else:
+                ends = (x.peekleft(), x.peek()) if n else None
+            out = [list(x), n, ends, list(reversed(x))]
+            x.append('q')
+            x.appendleft('p')
+            out.append(list(x))
+            for take in (x.popleft, x.pop):
+                try:
+                    out.append(take())
+                except IndexError:
+                    out.append('IndexError')
+            out.append(list(x))
+            return out
+        n = len(x)
+        if is_ref:
+            ends = (next(iter(x.items())), next(reversed(x.items()))) \
+                if n else None
+        else:
+            ends = (x.peekitem(last=False), x.peekitem(last=True)) \
+                if n else None
+        out = [list(x.items()), n, ends, list(reversed(x))]
+        x['zz'] = 1
+        out.append(list(x.items()))
+        out.append(x.popitem())
+        out.append(list(x.items()))
+        return out
+
     def attempt(at):
         d = run.fresh_dir('cw')
         shutil.copytree(tmpl, d)
@@ -414,6 +453,18 @@ def seq_case(name, kind, maxlen, items, program):
             outcome = 'other' if problems else (
                 'old' if same(call(view, fresh), view(A)) else 'new')
             part['outcomes'][outcome] = part['outcomes'].get(outcome, 0) + 1
+            if not problems:
+                got = call(deep_view, fresh, False)
+                # the reopened Deque has the constructor's maxlen again
+                wants = [deep_view(collections.deque(r, maxlen)
+                                   if kind == 'deque' else copy.deepcopy(r),
+                                   True) for r in (A, B)]
+                if not any(same(got, w) for w in wants):
+                    problems.append((
+                        'recovered-object-misbehaves',
+                        'contents look right but [items, len, ends, reversed, '
+                        'after insert at both ends, removed ends, rest] = %r; '
+                        'expected %r or %r' % (got, wants[0], wants[1])))
             fresh.cache.close()
             for clause, msg in problems:
                 part['violations'].append({
